@@ -107,6 +107,23 @@ pub fn c10(tier: &str) -> i32 {
         }
         searches.push(bt_search("C10", &format!("seed: 120 ascending keys of {name}, siblings 1: low-end runs then one insert above each of the 120 seed keys"), cfg(4096, 3, 1), Kind::BigUInt, vec![TOp::SeedRun(120, sz, false)], a, 2, if quick { 40_000 } else { 400_000 }));
     }
+    // multi-level trees of LARGE rows (a quarter / a third of a page, and rows with overflow chains): separators are as
+    // large as the rows, so interior pages hold three or four of them
+    for (seed_sz, n, name) in [(Sz::Third, 14u16, "14 keys of 1/3 page"), (Sz::Quarter, 24, "24 keys of 1/4 page"), (Sz::OneHalf, 12, "12 keys of 1.5 pages")] {
+        let mut a = vec![];
+        for sz in [Sz::Third, Sz::Quarter, Sz::Tiny] {
+            a.push(TOp::InsRun(0, 1, sz));
+            a.push(TOp::InsRun(1, 1, sz));
+            a.push(TOp::InsRun(2, 3, sz));
+            a.push(TOp::Put(1, sz));
+            a.push(TOp::Put(5, sz));
+        }
+        a.push(TOp::InsRun(1, 1, Sz::OneHalf));
+        a.push(TOp::RemRun(0, 3));
+        a.push(TOp::RemRun(1, 1));
+        a.push(TOp::Remove(5));
+        searches.push(bt_search("C10", &format!("seed: {name} (multi-level tree of large rows): single inserts and runs of 1/3-page, 1/4-page and tiny rows in three key regions, growing and shrinking updates, removes"), cfg(4096, 3, 2), Kind::BigUInt, vec![TOp::SeedRun(n, seed_sz, false)], a, if quick { 3 } else { 5 }, if quick { 60_000 } else { 2_000_000 }));
+    }
     // key types
     for (kind, name) in [(Kind::Int, "Int (negative keys)"), (Kind::Text, "Text (prefix-related keys)"), (Kind::IntText, "composite (Int, Text)")] {
         searches.push(bt_search("C10", &format!("seed: 40 keys of 200 B, {name} keys: small-key alphabet + runs"), cfg(4096, 3, 2), kind, vec![TOp::SeedRun(40, Sz::S200, false)], {
@@ -130,7 +147,7 @@ pub fn c10(tier: &str) -> i32 {
             "after EVERY operation: lookup of every key ever used, forward and backward scan against a BTreeMap model; page-graph audit computed in the harness from raw page dumps: keys strictly increasing within pages and across the leaf chain, separators bound their subtrees, all leaves at one depth, next/previous sibling links equal the key order, no empty non-root page",
             "states are deduplicated on a hash of (model contents, full page-graph digest including page numbers and the free list)",
             "minimum-occupancy (underflow/overflow thresholds) is not asserted: only emptiness of non-root pages",
-            "multi-level seeds use 200-byte rows: trees whose rows are a quarter page or larger break after a handful of inserts (listed finding), so the large size classes are explored from the empty tree on four keys only",
+            "multi-level seeds: 120 rows of 200-300 bytes (three levels) and 12-24 rows of a quarter page, a third of a page and 1.5 pages (separators as large as the rows)",
         ],
         "BFS over put/insert/update/remove sequences with payload size classes {8 B, 200 B, 1/4 page, 1/3 page, 1.5 pages, 3 pages} from the empty tree and over runs of 1/7/14 inserts and removes in three key regions from pre-grown 3-level trees, for BigUInt, Int, Text and composite keys and several tree geometries",
     )
